@@ -645,3 +645,20 @@ def m_float_cmp(c):
         return none()
     d = z3.simplify(z3.If(z3.fpLT(x, y), z3.BitVecVal(-1, 64), z3.If(z3.fpEQ(x, y), z3.BitVecVal(0, 64), z3.BitVecVal(1, 64))))
     return some(Enum('Ordering', d.as_signed_long() if z3.is_bv_value(d) else d, {}))
+
+
+@model('SystemTime::duration_since')
+def m_systime_since(c):
+    t = deref(c.st, c.args[0])
+    if isinstance(t, Struct) and 0 in t.fields:
+        return ok(Struct('Duration', {0: t.fields[0]}))
+    raise Unsupported('duration_since on ' + repr(t)[:60])
+
+
+@pattern(r'^<Box as Fn(Mut|Once)?<\(.*\)>>::call(_mut|_once)?$')
+def m_boxed_dyn_fn(c):
+    """a boxed `dyn Fn` supplied by the embedding application: unknown code, arbitrary result"""
+    t = parse_type(c.dest_ty) if c.dest_ty else None
+    if t is None:
+        raise Unsupported('boxed dyn Fn with unknown result type')
+    return c.st.fresh(t, c.st.fresh_name('dynfn'))
